@@ -21,12 +21,12 @@ fn space_for(tier: Tier) -> (Space, usize) {
     let mut s = Space::new();
     match tier {
         Tier::Quick => {
-            s.ast("K", 5, 64).ast("G", 5, 64).ast("AN", 4, 64).ast("ALT", 3, 64).ast("BR", 3, 64).ast("HIST", 3, 64);
+            s.ast("K", 5, 64).ast("G", 5, 64).ast("AN", 4, 64).ast("ALT", 3, 64).ast("BR", 3, 64).ast("HIST", 3, 64).ast("K0E", 3, 64).ast("K0S", 3, 64);
             s.list("literals under q", LITERALS.len() as u64, 4);
             (s, 2)
         }
         Tier::Thorough => {
-            s.ast("K", 5, 64).ast("G", 6, 64).ast("AN", 5, 64).ast("Q", 3, 64).ast("GC", 5, 64).ast("ALT", 4, 64).ast("BR", 4, 64).ast("HIST", 3, 64);
+            s.ast("K", 5, 64).ast("G", 6, 64).ast("AN", 5, 64).ast("Q", 3, 64).ast("GC", 5, 64).ast("ALT", 4, 64).ast("BR", 4, 64).ast("HIST", 3, 64).ast("K0E", 4, 64).ast("K0S", 4, 64);
             s.list("literals under q", LITERALS.len() as u64, 4);
             (s, 3)
         }
